@@ -50,7 +50,11 @@ func cmdUnit(args []string) {
 	keep := fs.String("work", "/tmp/govc-work", "work dir")
 	all := fs.Bool("all", false, "ask all solvers")
 	pkgsFlag := fs.String("pkgs", "", "comma-separated package patterns (default: all targets)")
+	claimed := fs.Bool("claimed", false, "solve only the obligations claimed by a property (skip the unclaimed bucket X00)")
 	_ = fs.Parse(args)
+	if *keep == "/tmp/govc-work" {
+		_ = os.RemoveAll(*keep) // query files of earlier developer runs add up to many gigabytes
+	}
 	var only []string
 	if *pkgsFlag != "" {
 		only = strings.Split(*pkgsFlag, ",")
@@ -82,6 +86,15 @@ func cmdUnit(args []string) {
 				continue
 			}
 			r := runUnit(w, pk, c)
+			if *claimed {
+				var keep []*Oblig
+				for _, o := range r.Obligs {
+					if o.Prop != "X00" || o.Canary {
+						keep = append(keep, o)
+					}
+				}
+				r.Obligs = keep
+			}
 			solveUnit(r, solveOpts{timeout: time.Duration(*to) * time.Second, all: *all, workdir: *keep, par: runtime.NumCPU()})
 			fmt.Println(r.summary())
 			if r.Err != "" {
